@@ -1,4 +1,5 @@
 import VibeProof.Generated.Consts
+import VibeProof.Model.BinTypes
 /-
 Model of vibesql's native binary persistence format
 (crates/vibesql-storage/src/persistence/binary/{io,format,value,data,catalog}.rs), as coded
@@ -28,6 +29,11 @@ inductive Err where
   | tableNotFound
   | duplicateName
   | unsupportedWhen
+  | badExprTag (b : Nat)
+  | badEnum (b : Nat)
+  | notImplemented
+  | depthExceeded
+  | zeroColumnRows
   deriving DecidableEq, Repr
 
 /-- ledger of file-driven allocation requests (bytes), and the outcome -/
@@ -339,6 +345,8 @@ structure TableDef where
 structure IdxCol where
   name : Bytes
   desc : Bool
+  /-- prefix index column `col(n)` -/
+  pfx : Option Nat
   deriving DecidableEq, Repr
 
 structure IdxDef where
@@ -348,7 +356,181 @@ structure IdxDef where
   cols : List IdxCol
   deriving DecidableEq, Repr
 
-/-- trigger without WHEN condition (a WHEN expression is outside the model: `unsupportedWhen`) -/
+/-! ### expressions (expression/{mod,case,window,operators,types}.rs): trigger WHEN conditions
+
+The reader is modelled at byte level; of the expression it keeps only its size and nesting
+depth (`ExInfo`).  `readExpr fuel` reads an expression that may still use `fuel` nesting levels:
+Rust's `read_expression_at(reader, depth)` fails when `depth > MAX_EXPRESSION_DEPTH` before it
+reads the tag, and every child is read at `depth + 1`; the root call is `readExpr (max + 1)`. -/
+
+structure ExInfo where
+  nodes : Nat
+  depth : Nat
+  deriving DecidableEq, Repr
+
+def ExInfo.leaf : ExInfo := ⟨1, 1⟩
+def ExInfo.combine (cs : List ExInfo) : ExInfo :=
+  ⟨1 + (cs.map (·.nodes)).sum, 1 + cs.foldl (fun m c => max m c.depth) 0⟩
+
+inductive EK where
+  | literal | columnRef | binaryOp | unaryOp | function | aggregateFunction | isNull | wildcard
+  | case | scalarSubquery | inSubquery | inList | between | cast | position | trim | like | exists
+  | quantifiedComparison | currentDate | currentTime | currentTimestamp | interval | default
+  | duplicateKeyValue | windowFunction | nextValue | matchAgainst | pseudoVariable | sessionVariable
+  deriving DecidableEq, Repr
+
+def EK.all : List EK :=
+  [.literal, .columnRef, .binaryOp, .unaryOp, .function, .aggregateFunction, .isNull, .wildcard,
+   .case, .scalarSubquery, .inSubquery, .inList, .between, .cast, .position, .trim, .like, .exists,
+   .quantifiedComparison, .currentDate, .currentTime, .currentTimestamp, .interval, .default,
+   .duplicateKeyValue, .windowFunction, .nextValue, .matchAgainst, .pseudoVariable, .sessionVariable]
+
+/-- `ExprTag::from_u8` -/
+def EK.fromNat? (b : Nat) : Option EK := (exprTagFromByte.lookup b).bind (fun i => EK.all[i]?)
+
+/-- the readers generated by `impl_simple_enum_serialization!` and the window tag matches -/
+def readEnum (allowed : List Nat) : Reader Nat := do
+  let b ← u8
+  if allowed.contains b.toNat then pure b.toNat else fail (.badEnum b.toNat)
+
+/-- `read_bool` then the value when true -/
+def optional (rd : Reader α) : Reader (Option α) := do
+  let h ← rbool
+  if h then do let a ← rd; pure (some a) else pure none
+
+/-- type text of a CAST target: `parse_data_type` (ASCII texts only; otherwise undecided) -/
+def checkTypeText (t : Bytes) : Reader Unit :=
+  if t.any (fun b => b ≥ 0x80) then fail .unsupportedWhen
+  else match BinTypes.parseDataType (t.map (fun b => Char.ofNat b.toNat)) with
+    | some _ => pure ()
+    | none => fail .badType
+
+/-- `read_case_when`: conditions and result (all read at the children's depth) -/
+def readCaseWhen (rec : Reader ExInfo) : Reader (List ExInfo) := do
+  let m ← uN 4
+  let conds ← readMany rec m
+  let r ← rec
+  pure (conds ++ [r])
+
+/-- `read_frame_bound` -/
+def readFrameBound (rec : Reader ExInfo) : Reader (List ExInfo) := do
+  let t ← readEnum exprFrameBoundTags
+  if exprFrameBoundWithExpr.contains t then do let e ← rec; pure [e] else pure []
+
+/-- `read_window_function_spec` followed by `read_window_spec` -/
+def readWindow (rec : Reader ExInfo) : Reader (List ExInfo) := do
+  let _ ← readEnum exprWindowFnSpecTags
+  let _ ← readString
+  let n ← uN 4
+  let args ← readMany rec n
+  let part ← optional (do let k ← uN 4; readMany rec k)
+  let hasOrder ← rbool
+  if hasOrder then fail .notImplemented else
+  let frame ← optional (do
+    let _ ← readEnum exprFrameUnitTags
+    let s ← readFrameBound rec
+    let e ← optional (readFrameBound rec)
+    pure (s ++ e.getD []))
+  pure (args ++ part.getD [] ++ frame.getD [])
+
+/-- one arm of `read_expression_at`, the children being read by `rec` -/
+def readExprBody (rec : Reader ExInfo) : EK → Reader ExInfo
+  | .literal => do let _ ← readValue; pure .leaf
+  | .columnRef => do let _ ← optional readString; let _ ← readString; pure .leaf
+  | .binaryOp => do
+      let _ ← readEnum exprBinaryOpTags
+      let l ← rec
+      let r ← rec
+      pure (.combine [l, r])
+  | .unaryOp => do let _ ← readEnum exprUnaryOpTags; let e ← rec; pure (.combine [e])
+  | .function => do
+      let _ ← readString
+      let n ← uN 4
+      let args ← readMany rec n
+      let _ ← optional (readEnum exprCharacterUnitTags)
+      pure (.combine args)
+  | .aggregateFunction => do
+      let _ ← readString
+      let _ ← rbool
+      let n ← uN 4
+      let args ← readMany rec n
+      pure (.combine args)
+  | .isNull => do let e ← rec; let _ ← rbool; pure (.combine [e])
+  | .wildcard => pure .leaf
+  | .case => do
+      let op ← optional rec
+      let n ← uN 4
+      let whens ← readMany (readCaseWhen rec) n
+      let els ← optional rec
+      pure (.combine (op.toList ++ whens.flatten ++ els.toList))
+  | .scalarSubquery => fail .notImplemented
+  | .inSubquery => fail .notImplemented
+  | .inList => do
+      let e ← rec
+      let n ← uN 4
+      let vs ← readMany rec n
+      let _ ← rbool
+      pure (.combine (e :: vs))
+  | .between => do
+      let e ← rec
+      let lo ← rec
+      let hi ← rec
+      let _ ← rbool
+      let _ ← rbool
+      pure (.combine [e, lo, hi])
+  | .cast => do
+      let e ← rec
+      let t ← readString
+      checkTypeText t
+      pure (.combine [e])
+  | .position => do
+      let a ← rec
+      let b ← rec
+      let _ ← optional (readEnum exprCharacterUnitTags)
+      pure (.combine [a, b])
+  | .trim => do
+      let _ ← optional (readEnum exprTrimPositionTags)
+      let c ← optional rec
+      let e ← rec
+      pure (.combine (c.toList ++ [e]))
+  | .like => do let e ← rec; let p ← rec; let _ ← rbool; pure (.combine [e, p])
+  | .exists => fail .notImplemented
+  | .quantifiedComparison => fail .notImplemented
+  | .currentDate => pure .leaf
+  | .currentTime => do let _ ← optional (uN 4); pure .leaf
+  | .currentTimestamp => do let _ ← optional (uN 4); pure .leaf
+  | .interval => do
+      let e ← rec
+      let _ ← readEnum exprIntervalUnitTags
+      let _ ← optional (uN 4)
+      let _ ← optional (uN 4)
+      pure (.combine [e])
+  | .default => pure .leaf
+  | .duplicateKeyValue => do let _ ← readString; pure .leaf
+  | .windowFunction => do let cs ← readWindow rec; pure (.combine cs)
+  | .nextValue => do let _ ← readString; pure .leaf
+  | .matchAgainst => do
+      let n ← uN 4
+      let _ ← readMany readString n
+      let e ← rec
+      let _ ← readEnum exprFulltextModeTags
+      pure (.combine [e])
+  | .pseudoVariable => do let _ ← readEnum exprPseudoTableTags; let _ ← readString; pure .leaf
+  | .sessionVariable => do let _ ← readString; pure .leaf
+
+/-- `read_expression_at`: `fuel` = nesting levels still allowed -/
+def readExpr : Nat → Reader ExInfo
+  | 0 => fail .depthExceeded
+  | fuel + 1 => do
+    let b ← u8
+    match EK.fromNat? b.toNat with
+    | none => fail (.badExprTag b.toNat)
+    | some k => readExprBody (readExpr fuel) k
+
+/-- `read_expression` (depth 0; levels 0 ..= MAX_EXPRESSION_DEPTH are allowed) -/
+def readExpression : Reader ExInfo := readExpr (exprMaxDepth + 1)
+
+/-- trigger; of a WHEN condition the model keeps its size and depth -/
 structure TrigDef where
   name : Bytes
   table : Bytes
@@ -356,6 +538,7 @@ structure TrigDef where
   event : Nat             -- 0 insert, 1 update, 2 delete, 3 update of columns
   eventCols : List Bytes  -- only for event 3
   granularity : Nat       -- 0 row, 1 statement
+  when : Option ExInfo
   sql : Bytes
   deriving DecidableEq, Repr
 
@@ -384,12 +567,20 @@ def readTableDef : Reader TableDef := do
   let cs ← readMany readCol k
   pure ⟨n, cs⟩
 
-def writeIdxCol (c : IdxCol) : Bytes := writeString c.name ++ [if c.desc then 1 else 0]
+/-- direction byte: 0 asc, 1 desc, +2 when a prefix length (u64) follows -/
+def dirByte (c : IdxCol) : UInt8 :=
+  match c.desc, c.pfx with
+  | false, none => 0 | true, none => 1 | false, some _ => 2 | true, some _ => 3
+
+def writeIdxCol (c : IdxCol) : Bytes :=
+  writeString c.name ++ [dirByte c] ++ (match c.pfx with | some n => leBytes 8 n | none => [])
 def readIdxCol : Reader IdxCol := do
   let n ← readString
   let d ← u8
-  if d == 0 then pure ⟨n, false⟩
-  else if d == 1 then pure ⟨n, true⟩
+  if d == 0 then pure ⟨n, false, none⟩
+  else if d == 1 then pure ⟨n, true, none⟩
+  else if d == 2 then do let p ← uN 8; pure ⟨n, false, some p⟩
+  else if d == 3 then do let p ← uN 8; pure ⟨n, true, some p⟩
   else fail (.badDirection d.toNat)
 
 def writeIdxDef (i : IdxDef) : Bytes :=
@@ -417,12 +608,11 @@ def readTrig : Reader TrigDef := do
   let cols ← (if ev.toNat = 3 then do let k ← uN 4; readMany readString k else pure [])
   let g ← u8
   if g.toNat > 1 then fail .badGranularity else
-  let hasWhen ← rbool
-  if hasWhen then fail .unsupportedWhen else
+  let w ← optional readExpression
   let act ← u8
   if act.toNat ≠ 0 then fail .badAction else
   let sql ← readString
-  pure ⟨n, t, timing.toNat, ev.toNat, cols, g.toNat, sql⟩
+  pure ⟨n, t, timing.toNat, ev.toNat, cols, g.toNat, w, sql⟩
 
 def writeCounted (wr : α → Bytes) (xs : List α) : Bytes := writeCount xs.length ++ writeMany wr xs
 def readCounted (rd : Reader α) : Reader (List α) := do
@@ -459,7 +649,9 @@ def readTableData (tables : List TableDef) : Reader TableData := do
   let n ← uN 8
   match findCols tables name with
   | none => fail .tableNotFound
-  | some k => do
+  | some k =>
+    -- a row of zero values consumes no input: the (repaired) loader refuses to loop
+    if k = 0 ∧ n > 0 then fail .zeroColumnRows else do
     let rows ← readRows n k
     pure ⟨name, rows⟩
 
